@@ -30,6 +30,11 @@ type Opt struct {
 	NoSleep  bool // brute force (no sleep sets)
 	MaxSteps int
 	AllPts   bool // E2: deviate at every point, not only shared ones
+	// Post, if set, is called after each execution has ended (outside the controlled
+	// runtime) and may add violations, e.g. from artefacts the body left behind.
+	Post func(o *Out)
+	// RoundRobin: E2 default scheduler is non-preemptive round robin instead of lowest id.
+	RoundRobin bool
 }
 
 type Res struct {
@@ -295,6 +300,8 @@ func RunSchedule(body Body, sched []int, maxSteps int) (Out, string, []vrt.Point
 // thread right before an op nobody else can observe is equivalent to skipping it after.
 func Delay(body Body, bound int, opt Opt) Res {
 	res := Res{Outcomes: map[string]int{}, Exhaustive: true, Bound: bound}
+	vrt.S.RoundRobin = opt.RoundRobin
+	defer func() { vrt.S.RoundRobin = false }()
 	stop := false
 	var explore func(prefix []int, cost int)
 	explore = func(prefix []int, cost int) {
@@ -308,6 +315,9 @@ func Delay(body Body, bound int, opt Opt) Res {
 			return
 		}
 		o, f, pts := RunSchedule(body, prefix, opt.MaxSteps)
+		if opt.Post != nil && f == "" {
+			opt.Post(&o)
+		}
 		res.Runs++
 		if len(pts) > res.MaxPoints {
 			res.MaxPoints = len(pts)
@@ -347,9 +357,12 @@ func Delay(body Body, bound int, opt Opt) Res {
 
 // Confirm re-executes a schedule n times and reports whether the same violation signature
 // shows up every time.
-func Confirm(body Body, sched []int, sig string, n int) bool {
+func Confirm(body Body, sched []int, sig string, n int, post ...func(o *Out)) bool {
 	for i := 0; i < n; i++ {
 		o, f, _ := RunSchedule(body, sched, 0)
+		if len(post) > 0 && post[0] != nil && f == "" {
+			post[0](&o)
+		}
 		ok := false
 		if f != "" && FailSig(f) == sig {
 			ok = true
